@@ -850,3 +850,338 @@ Proof.
       * replace (starts p (p ++ b)) with true by (symmetry; apply starts_true_iff; eauto). reflexivity.
     + cbn [app contains]. rewrite IH. apply orb_true_r.
 Qed.
+
+(* ------------------------------------------------------------------------------------------------ *)
+(* 7. call sites anywhere in a structured program (generic in the tokens, like C05)                   *)
+
+Section Ctx.
+  Variable D : Type.
+  Variable St : Type.
+  Variable step : D -> St -> St.
+  Variable halted : St -> bool.
+  Variable cnt : Z -> St -> nat.
+  Notation sem' := (sem D St step halted cnt).
+  Notation sem_item' := (sem_item D St step halted cnt).
+  Notation sem_opt' := (sem_opt D St step halted cnt).
+
+  (* a context: a structured program whose leaves are tokens (Some d) or the place of the call (None) *)
+  Fixpoint fill_item (x : D) (i : item (option D)) : item D :=
+    match i with
+    | Leaf o => Leaf (match o with Some d => d | None => x end)
+    | Loop n a b => Loop n (fill x a) (match b with None => None | Some b' => Some (fill x b') end)
+    end
+  with fill (x : D) (p : prog (option D)) : prog D :=
+    match p with
+    | PNil => PNil
+    | PCons i p' => PCons (fill_item x i) (fill x p')
+    end.
+
+  Fixpoint splice_item (q : prog D) (i : item (option D)) : prog D :=
+    match i with
+    | Leaf o => match o with Some d => PCons (Leaf d) PNil | None => q end
+    | Loop n a b => PCons (Loop n (splice q a) (match b with None => None | Some b' => Some (splice q b') end)) PNil
+    end
+  with splice (q : prog D) (p : prog (option D)) : prog D :=
+    match p with
+    | PNil => PNil
+    | PCons i p' => papp (splice_item q i) (splice q p')
+    end.
+
+  Fixpoint ctx_leaves_item (Q : D -> Prop) (i : item (option D)) : Prop :=
+    match i with
+    | Leaf o => match o with Some d => Q d | None => True end
+    | Loop n a b => ctx_leaves Q a /\ match b with None => True | Some b' => ctx_leaves Q b' end
+    end
+  with ctx_leaves (Q : D -> Prop) (p : prog (option D)) : Prop :=
+    match p with
+    | PNil => True
+    | PCons i p' => ctx_leaves_item Q i /\ ctx_leaves Q p'
+    end.
+
+  Fixpoint all_leaves_item (Q : D -> Prop) (i : item D) : Prop :=
+    match i with
+    | Leaf d => Q d
+    | Loop n a b => all_leaves Q a /\ match b with None => True | Some b' => all_leaves Q b' end
+    end
+  with all_leaves (Q : D -> Prop) (p : prog D) : Prop :=
+    match p with
+    | PNil => True
+    | PCons i p' => all_leaves_item Q i /\ all_leaves Q p'
+    end.
+
+  Variable P : St -> Prop.               (* an invariant of the interpreter state *)
+  Variable bot : St.                     (* "ran out of fuel": halted, and below every answer *)
+  Hypothesis bot_halted : halted bot = true.
+  Hypothesis P_bot : P bot.
+  Definition le (r1 r2 : St) : Prop := r1 = r2 \/ r1 = bot.
+  Definition keeps (d : D) : Prop := forall s, P s -> P (step d s).
+
+  Lemma passes_keeps (fa fb : St -> St) : (forall s, P s -> P (fa s)) -> (forall s, P s -> P (fb s)) ->
+    forall k s, P s -> P (passes fa fb k s).
+  Proof.
+    intros Ha Hb. induction k as [|k IH]; intros s Hs; [exact Hs|].
+    destruct k as [|k]; [apply Ha; exact Hs|]. rewrite passes_SS. apply IH. apply Hb, Ha, Hs.
+  Qed.
+
+  Lemma sem_keeps :
+    (forall i, all_leaves_item keeps i -> forall s, P s -> P (sem_item' i s)) /\
+    (forall p, all_leaves keeps p -> forall s, P s -> P (sem' p s)).
+  Proof.
+    apply item_prog_mutind.
+    - intros d H s Hs. rewrite sem_item_leaf. destruct (halted s); [exact Hs|apply H; exact Hs].
+    - intros n a IHa [Ha _] s Hs. rewrite sem_item_loop. apply passes_keeps; [apply IHa; exact Ha|intros; assumption|exact Hs].
+    - intros n a b IHa IHb [Ha Hb] s Hs. rewrite sem_item_loop.
+      apply passes_keeps; [apply IHa; exact Ha|apply IHb; exact Hb|exact Hs].
+    - intros _ s Hs. exact Hs.
+    - intros i p IHi IHp [Hi Hp] s Hs. rewrite sem_cons. apply IHp; [exact Hp|]. apply IHi; assumption.
+  Qed.
+
+  Lemma passes_le (fa fb fa' fb' : St -> St) :
+    (forall s, P s -> le (fa s) (fa' s) /\ P (fa s)) -> (forall s, P s -> le (fb s) (fb' s) /\ P (fb s)) ->
+    (forall x, halted x = true -> fa x = x) -> (forall x, halted x = true -> fb x = x) ->
+    forall k s, P s -> le (passes fa fb k s) (passes fa' fb' k s) /\ P (passes fa fb k s).
+  Proof.
+    intros Ha Hb Hfa Hfb. induction k as [|k IH]; intros s Hs; [split; [left; reflexivity|exact Hs]|].
+    destruct k as [|k]; [rewrite !passes_1; apply Ha; exact Hs|]. rewrite !passes_SS.
+    destruct (Ha s Hs) as [[Ea|Ea] Pa].
+    - rewrite <- Ea. destruct (Hb (fa s) Pa) as [[Eb|Eb] Pb].
+      + rewrite <- Eb. apply IH. exact Pb.
+      + rewrite Eb. rewrite (passes_halted St halted fa fb Hfa Hfb (S k) bot bot_halted). split; [right; reflexivity|exact P_bot].
+    - rewrite Ea. rewrite (Hfb bot bot_halted).
+      rewrite (passes_halted St halted fa fb Hfa Hfb (S k) bot bot_halted). split; [right; reflexivity|exact P_bot].
+  Qed.
+
+  Variable tv : D.
+  Variable q : prog D.
+  Hypothesis Hcall : forall s, P s -> halted s = false -> le (step tv s) (sem' q s) /\ P (step tv s).
+
+  Lemma sem_bot p : sem' p bot = bot.
+  Proof. apply (proj2 (sem_halted D St step halted cnt)). exact bot_halted. Qed.
+
+  Theorem splice_le :
+    (forall i, ctx_leaves_item keeps i -> forall s, P s ->
+       le (sem_item' (fill_item tv i) s) (sem' (splice_item q i) s) /\ P (sem_item' (fill_item tv i) s)) /\
+    (forall c, ctx_leaves keeps c -> forall s, P s ->
+       le (sem' (fill tv c) s) (sem' (splice q c) s) /\ P (sem' (fill tv c) s)).
+  Proof.
+    apply (item_prog_mutind (option D)
+      (fun i => ctx_leaves_item keeps i -> forall s, P s ->
+         le (sem_item' (fill_item tv i) s) (sem' (splice_item q i) s) /\ P (sem_item' (fill_item tv i) s))
+      (fun c => ctx_leaves keeps c -> forall s, P s ->
+         le (sem' (fill tv c) s) (sem' (splice q c) s) /\ P (sem' (fill tv c) s))).
+    - intros [d|] H s Hs; cbn [fill_item splice_item]; rewrite sem_item_leaf.
+      + rewrite sem_cons, sem_nil, sem_item_leaf. split; [left; reflexivity|].
+        destruct (halted s); [exact Hs|apply H; exact Hs].
+      + destruct (halted s) eqn:Hh.
+        * rewrite (proj2 (sem_halted D St step halted cnt) q s Hh). split; [left; reflexivity|exact Hs].
+        * apply Hcall; assumption.
+    - intros n a IHa [Ha _] s Hs. cbn [fill_item splice_item]. rewrite sem_cons, sem_nil, !sem_item_loop.
+      cbn [sem_opt].
+      apply passes_le; try (intros; split; [left; reflexivity|assumption]); try (intros; reflexivity).
+      + intros s' Hs'. apply IHa; assumption.
+      + apply (proj2 (sem_halted D St step halted cnt)).
+      + exact Hs.
+    - intros n a b IHa IHb [Ha Hb] s Hs. cbn [fill_item splice_item]. rewrite sem_cons, sem_nil, !sem_item_loop.
+      cbn [sem_opt].
+      apply passes_le.
+      + intros s' Hs'. apply IHa; assumption.
+      + intros s' Hs'. apply IHb; assumption.
+      + apply (proj2 (sem_halted D St step halted cnt)).
+      + apply (proj2 (sem_halted D St step halted cnt)).
+      + exact Hs.
+    - intros _ s Hs. split; [left; reflexivity|exact Hs].
+    - intros i p IHi IHp [Hi Hp] s Hs. cbn [fill splice]. rewrite sem_cons, sem_app.
+      destruct (IHi Hi s Hs) as [[E|E] Pi].
+      + rewrite <- E. apply IHp; assumption.
+      + rewrite E, sem_bot. split; [right; reflexivity|exact P_bot].
+  Qed.
+End Ctx.
+
+(* a loop count that does not depend on the state: the fuel bound of C05 is a number read off the program *)
+Section WCost.
+  Variable D : Type.
+  Variable St : Type.
+  Variable step : D -> St -> St.
+  Variable halted : St -> bool.
+  Variable cnt0 : Z -> nat.
+
+  Fixpoint wcost_item (i : item D) : nat :=
+    match i with
+    | Leaf _ => 1
+    | Loop n a b => 1 + cnt0 n * (wcost a + match b with None => 0 | Some b' => wcost b' end + 2)
+    end
+  with wcost (p : prog D) : nat :=
+    match p with
+    | PNil => 0
+    | PCons i p' => wcost_item i + wcost p'
+    end.
+
+  Lemma cpasses_const (A B : nat) (ca cb : St -> nat) (fa fb : St -> St) :
+    (forall s, ca s = A) -> (forall s, cb s = B) -> forall k s, cpasses ca cb fa fb k s = (k * (A + B + 2))%nat.
+  Proof.
+    intros Ha Hb. induction k as [|k IH]; intros s; [reflexivity|].
+    cbn [cpasses]. rewrite Ha, Hb, IH. lia.
+  Qed.
+
+  Lemma cost_wcost :
+    (forall i s, cost_item D St step halted (fun n _ => cnt0 n) i s = wcost_item i) /\
+    (forall p s, cost D St step halted (fun n _ => cnt0 n) p s = wcost p).
+  Proof.
+    apply item_prog_mutind.
+    - intros d s. reflexivity.
+    - intros n a IHa s. rewrite cost_item_loop. cbn [wcost_item cost_opt].
+      rewrite (cpasses_const (wcost a) 0); [lia|exact IHa|reflexivity].
+    - intros n a b IHa IHb s. rewrite cost_item_loop. cbn [wcost_item cost_opt].
+      rewrite (cpasses_const (wcost a) (wcost b)); [lia|exact IHa|exact IHb].
+    - intros s. reflexivity.
+    - intros i p IHi IHp s. rewrite cost_cons, IHi, IHp. reflexivity.
+  Qed.
+End WCost.
+
+(* --- tokens that touch nothing the lexer reads (time base, log, variables, rhythm table) --- *)
+Definition quiet_tok (t : tok) : bool :=
+  match t with
+  | TLoopBegin _ | TLoopBreak | TLoopEnd | TDiv _ _ _ | TSub _ | TValue _ _ _
+  | TTime _ | TPlayFrom _ | TTimeSignature _ => false
+  | _ => true
+  end.
+
+Lemma quiet_plain t : quiet_tok t = true -> plain_tok t = true.
+Proof. destruct t; try discriminate; reflexivity. Qed.
+
+Lemma quiet_keeps_ls ec t s s' : quiet_tok t = true -> step_song ec t s = Ok s' -> ls_of_song s' = ls_of_song s.
+Proof.
+  intros Hq. destruct t; try discriminate; cbn [step_song];
+  first
+  [ solve [intros E; injection E as <-; reflexivity]
+  | solve [unfold exec_note, exec_note_n, emit_note;
+           repeat match goal with |- context [if ?b then _ else _] => destruct b end;
+           try discriminate; intros E; injection E as <-; reflexivity]
+  | solve [unfold exec_harmony_end, change_cur_track, settle_octave_once, tempo_change, track_sync;
+           repeat match goal with |- context [if ?b then _ else _] => destruct b end;
+           try discriminate; intros E; injection E as <-; reflexivity]
+  | solve [unfold exec_voice;
+           match goal with |- context [match ?a with [] => _ | _ => _ end] => destruct a as [|a0 [|a1 ar]] end;
+           intros E; injection E as <-; reflexivity] ].
+Qed.
+
+Definition Pls (ls0 : lexstate) (r : res song) : Prop :=
+  match r with Ok s => ls_of_song s = ls0 | _ => True end.
+
+Lemma quiet_keeps ec ls0 t : quiet_tok t = true -> keeps tok (res song) (step_tok ec) (Pls ls0) t.
+Proof.
+  intros Hq [s| | |] H; cbn [step_tok bind Pls]; try exact I.
+  destruct (step_song ec t s) as [s'| | |] eqn:E; cbn [Pls]; try exact I.
+  rewrite (quiet_keeps_ls ec t s s' Hq E). exact H.
+Qed.
+
+Lemma quiet_leaves_ok :
+  (forall i : item tok, all_leaves_item tok (fun t => quiet_tok t = true) i -> leaves_ok_item i = true) /\
+  (forall p : prog tok, all_leaves tok (fun t => quiet_tok t = true) p -> leaves_ok p = true).
+Proof.
+  apply item_prog_mutind.
+  - intros d H. apply quiet_plain. exact H.
+  - intros n a IHa [Ha _]. apply andb_true_intro. split; [apply IHa; exact Ha|reflexivity].
+  - intros n a b IHa IHb [Ha Hb]. apply andb_true_intro. split; [apply IHa; exact Ha|apply IHb; exact Hb].
+  - intros _. reflexivity.
+  - intros i p IHi IHp [Hi Hp]. apply andb_true_intro. split; [apply IHi; exact Hi|apply IHp; exact Hp].
+Qed.
+
+Lemma fill_leaves_ok tv : plain_tok tv = true ->
+  (forall i, ctx_leaves_item tok (fun t => quiet_tok t = true) i -> leaves_ok_item (fill_item tok tv i) = true) /\
+  (forall c, ctx_leaves tok (fun t => quiet_tok t = true) c -> leaves_ok (fill tok tv c) = true).
+Proof.
+  intros Htv. apply (item_prog_mutind (option tok)
+    (fun i => ctx_leaves_item tok (fun t => quiet_tok t = true) i -> leaves_ok_item (fill_item tok tv i) = true)
+    (fun c => ctx_leaves tok (fun t => quiet_tok t = true) c -> leaves_ok (fill tok tv c) = true)).
+  - intros [d|] H; cbn [fill_item leaves_ok_item]; [apply quiet_plain; exact H|exact Htv].
+  - intros n a IHa [Ha _]. apply andb_true_intro. split; [apply IHa; exact Ha|reflexivity].
+  - intros n a b IHa IHb [Ha Hb]. apply andb_true_intro. split; [apply IHa; exact Ha|apply IHb; exact Hb].
+  - intros _. reflexivity.
+  - intros i p IHi IHp [Hi Hp]. apply andb_true_intro. split; [apply IHi; exact Hi|apply IHp; exact Hp].
+Qed.
+
+Lemma splice_leaves_ok q : leaves_ok q = true ->
+  (forall i, ctx_leaves_item tok (fun t => quiet_tok t = true) i -> leaves_ok (splice_item tok q i) = true) /\
+  (forall c, ctx_leaves tok (fun t => quiet_tok t = true) c -> leaves_ok (splice tok q c) = true).
+Proof.
+  intros Hq. apply (item_prog_mutind (option tok)
+    (fun i => ctx_leaves_item tok (fun t => quiet_tok t = true) i -> leaves_ok (splice_item tok q i) = true)
+    (fun c => ctx_leaves tok (fun t => quiet_tok t = true) c -> leaves_ok (splice tok q c) = true)).
+  - intros [d|] H; [|exact Hq]. apply andb_true_intro. split; [apply quiet_plain; exact H|reflexivity].
+  - intros n a IHa [Ha _]. apply andb_true_intro. split; [|reflexivity].
+    apply andb_true_intro. split; [apply IHa; exact Ha|reflexivity].
+  - intros n a b IHa IHb [Ha Hb]. apply andb_true_intro. split; [|reflexivity].
+    apply andb_true_intro. split; [apply IHa; exact Ha|apply IHb; exact Hb].
+  - intros _. reflexivity.
+  - intros i p IHi IHp [Hi Hp]. change (splice tok q (PCons i p)) with (papp (splice_item tok q i) (splice tok q p)).
+    rewrite leaves_ok_app. apply andb_true_intro. split; [apply IHi; exact Hi|apply IHp; exact Hp].
+Qed.
+
+Definition cnt0 (n : Z) : nat := Nat.max 1 (Z.to_nat n).        (* count1 count_of, which ignores the state *)
+
+(* A call ANYWHERE in a structured program - at top level or inside loops nested to any depth, before or after
+   a ':' - against the program with the tokens of the macro text spliced in at every such place.  All other
+   tokens (of the context and of the text) are `quiet`: they do not touch what the lexer reads, so the text lexes
+   to the same tokens, and defines nothing, at every pass. *)
+Theorem macro_inline_ctx (steps d : nat) (c : prog (option tok)) (q : prog tok) name args ln
+        (ls0 : lexstate) body tag (s0 : song) :
+  ctx_leaves tok (fun t => quiet_tok t = true) c ->
+  all_leaves tok (fun t => quiet_tok t = true) q ->
+  vars_get name (lx_vars ls0) = Some (VStr body tag) ->
+  lex ls0 (call_text args body) ln = Ok (toks_of q, ls0) ->
+  ls_of_song s0 = ls0 ->
+  (wcost tok cnt0 (fill tok (TValue name args ln) c) < steps)%nat ->
+  (wcost tok cnt0 (splice tok q c) < steps)%nat ->
+  (wcost tok cnt0 q < steps)%nat ->
+  exec_f (S d) steps (toks_of (fill tok (TValue name args ln) c)) (Ok s0) <> OutOfFuel ->
+  exec_f (S d) steps (toks_of (splice tok q c)) (Ok s0)
+  = exec_f (S d) steps (toks_of (fill tok (TValue name args ln) c)) (Ok s0).
+Proof.
+  intros Hc Hq Hv Hl Hs0 W1 W2 Wq Hgood.
+  set (tv := TValue name args ln) in *.
+  set (stp := step_tok (exec_f d steps)).
+  assert (Lq : leaves_ok q = true) by (apply (proj2 quiet_leaves_ok); exact Hq).
+  assert (L1 : leaves_ok (fill tok tv c) = true) by (apply (proj2 (fill_leaves_ok tv eq_refl)); exact Hc).
+  assert (L2 : leaves_ok (splice tok q c) = true) by (apply (proj2 (splice_leaves_ok q Lq)); exact Hc).
+  assert (CW : forall p r, cost tok (res song) stp halted (count1 count_of) p r = wcost tok cnt0 p).
+  { intros p r. apply (proj2 (cost_wcost tok (res song) stp halted cnt0)). }
+  rewrite (exec_f_structured steps d _ _ L1) in Hgood |- * by (rewrite CW; exact W1).
+  rewrite (exec_f_structured steps d _ _ L2) by (rewrite CW; exact W2).
+  assert (Hcall : forall r, Pls ls0 r -> halted r = false ->
+            le (res song) OutOfFuel (stp tv r) (sem tok (res song) stp halted (count1 count_of) q r) /\ Pls ls0 (stp tv r)).
+  { intros [s| | |] Hr Hh; try discriminate. cbn [Pls] in Hr. unfold stp at 1 3. cbn [step_tok bind].
+    assert (Hv' : vars_get name (s_vars s) = Some (VStr body tag)) by (rewrite <- Hr in Hv; exact Hv).
+    assert (Hl' : lex (ls_of_song s) (call_text args body) ln = Ok (toks_of q, ls_of_song s)) by (rewrite Hr; exact Hl).
+    unfold tv. rewrite (macro_inline_step (exec_f d steps) name args ln s body tag _ Hv' Hl').
+    destruct (res_eq_oof (exec_f d steps (toks_of q) (Ok s))) as [Eo|Eo].
+    - rewrite Eo. split; [right; reflexivity|exact I].
+    - assert (E : exec_f d steps (toks_of q) (Ok s) = sem tok (res song) stp halted (count1 count_of) q (Ok s)).
+      { rewrite <- (exec_f_depth_mono steps d _ _ _ eq_refl Eo).
+        apply exec_f_structured; [exact Lq|rewrite CW; exact Wq]. }
+      rewrite E. split; [left; reflexivity|].
+      apply (proj2 (sem_keeps tok (res song) stp halted (count1 count_of) (Pls ls0))); [|exact Hr].
+      clear -Hq. revert q Hq.
+      apply (proj2 (item_prog_mutind tok
+        (fun i => all_leaves_item tok (fun t => quiet_tok t = true) i -> all_leaves_item tok (keeps tok (res song) stp (Pls ls0)) i)
+        (fun p => all_leaves tok (fun t => quiet_tok t = true) p -> all_leaves tok (keeps tok (res song) stp (Pls ls0)) p)
+        (fun d H => quiet_keeps _ ls0 d H)
+        (fun n a IHa H => conj (IHa (proj1 H)) I)
+        (fun n a b IHa IHb H => conj (IHa (proj1 H)) (IHb (proj2 H)))
+        (fun _ => I)
+        (fun i p IHi IHp H => conj (IHi (proj1 H)) (IHp (proj2 H))))). }
+  assert (Hkc : ctx_leaves tok (keeps tok (res song) stp (Pls ls0)) c).
+  { clear -Hc. revert c Hc.
+    apply (proj2 (item_prog_mutind (option tok)
+      (fun i => ctx_leaves_item tok (fun t => quiet_tok t = true) i -> ctx_leaves_item tok (keeps tok (res song) stp (Pls ls0)) i)
+      (fun p => ctx_leaves tok (fun t => quiet_tok t = true) p -> ctx_leaves tok (keeps tok (res song) stp (Pls ls0)) p)
+      (fun o => match o with Some d => fun H => quiet_keeps _ ls0 d H | None => fun _ => I end)
+      (fun n a IHa H => conj (IHa (proj1 H)) I)
+      (fun n a b IHa IHb H => conj (IHa (proj1 H)) (IHb (proj2 H)))
+      (fun _ => I)
+      (fun i p IHi IHp H => conj (IHi (proj1 H)) (IHp (proj2 H))))). }
+  destruct (proj2 (splice_le tok (res song) stp halted (count1 count_of) (Pls ls0) OutOfFuel eq_refl I tv q Hcall)
+                  c Hkc (Ok s0) Hs0) as [[E|E] _].
+  - symmetry. exact E.
+  - exfalso. apply Hgood. exact E.
+Qed.
